@@ -308,7 +308,8 @@ func filterParams(ps []*Param, name string) []*Param {
 }
 
 var structKinds = []string{"endpoint:remove", "consumes:remove", "param:add-required", "param:optional->required", "param:in-change",
-	"param:collectionFormat-change", "body.property:add-required", "body.property:becomes-required", "body:add-required"}
+	"param:collectionFormat-change", "body.property:add-required", "body.property:becomes-required", "body:add-required", "body:optional->required",
+	"param(header):optional->required", "param(formData):optional->required"}
 var respKinds = []string{"response:remove", "response.property:remove", "response.header:remove", "response.enum:grow",
 	"response.property(nested):remove", "response.enum(ref):grow"}
 
@@ -396,6 +397,36 @@ func structural(g *G, base *Spec, kind string) *CatEdit {
 			}
 		}
 		e.A, e.B, e.Witness, e.WKind, e.SA = a, b, map[string]interface{}{"id": "x"}, "body", sa
+	case "body:optional->required":
+		pi, op := pickOp(g, a, true)
+		sa := &Schema{Type: []string{"object"}, Props: []KV{{K: "id", V: &Schema{Type: []string{"string"}}}}}
+		op.Params = append(filterParams(op.Params, "body"), &Param{Name: "body", In: "body", Chain: []*Simple{{}}, Schema: sa})
+		b := a.Clone()
+		opb := findOp(b, pi.URL, op.Method)
+		for _, p := range opb.Params {
+			if p.In == "body" {
+				p.Required = true
+			}
+		}
+		e.A, e.B, e.Witness = a, b, "request without a body"
+	case "param(header):optional->required", "param(formData):optional->required":
+		in := "header"
+		if strings.Contains(kind, "formData") {
+			in = "formData"
+		}
+		pi, op := pickOp(g, a, in == "formData")
+		if in == "formData" {
+			op.Params = filterParams(op.Params, "body")
+		}
+		op.Params = append(filterParams(op.Params, "w"), &Param{Name: "w", In: in, Chain: []*Simple{{Type: "string"}}})
+		b := a.Clone()
+		opb := findOp(b, pi.URL, op.Method)
+		for _, p := range opb.Params {
+			if p.Name == "w" {
+				p.Required = true
+			}
+		}
+		e.A, e.B, e.Witness = a, b, "request without "+in+" parameter w"
 	case "body:add-required":
 		pi, op := pickOp(g, a, true)
 		op.Params = filterParams(op.Params, "body")
